@@ -23,6 +23,7 @@ import (
 	"log/slog"
 	"slices"
 	"sync"
+	"sync/atomic"
 	"time"
 
 	"github.com/blinklabs-io/gouroboros/cbor"
@@ -66,6 +67,7 @@ type Protocol struct {
 	pendingRecvSizes    []int // Track sizes of pending received messages for accurate decrement
 	currentStateMu      sync.RWMutex
 	currentState        State
+	errored             atomic.Bool // set when an error is about to be reported
 }
 
 // ProtocolConfig provides the configuration for Protocol
@@ -433,6 +435,10 @@ func (p *Protocol) SendError(err error) {
 		return
 	default:
 	}
+	// Mark the protocol as failed before the error is published, so that no
+	// received message is handed to the handler once the consumer can have
+	// seen the error
+	p.errored.Store(true)
 	// Send error to consumer
 	select {
 	case p.config.ErrorChan <- err:
@@ -1015,6 +1021,18 @@ func (p *Protocol) transitionState(msg Message) error {
 func (p *Protocol) handleMessage(msg Message) error {
 	if err := p.transitionState(msg); err != nil {
 		return fmt.Errorf("%s: error handling message: %w", p.config.Name, err)
+	}
+
+	// Don't hand the message to the handler if the protocol failed or was
+	// stopped (e.g. by an error from another loop) while the state transition
+	// was in flight
+	if p.errored.Load() {
+		return ErrProtocolShuttingDown
+	}
+	select {
+	case <-p.stopChan:
+		return ErrProtocolShuttingDown
+	default:
 	}
 
 	// Call handler function
